@@ -10,3 +10,4 @@ import AvoVerif.Props.C08
 #print axioms Avo.Mov.mov_first
 #print axioms Avo.Mov.gp_width_errors
 #print axioms Avo.Mov.gp_loads_defined
+#print axioms Avo.Mov.must_move_defined
